@@ -55,8 +55,11 @@ def renameWild (rel : String) : Nat → List Term → List Term
   | i, t :: ts => t :: renameWild rel (i + 1) ts
 
 /-- positive atoms with wildcards given their schema names. -/
-def quirkWild (r : Rule) : Rule :=
-  { r with body := r.body.map (fun | .pos a => .pos { a with args := renameWild a.rel 0 a.args } | l => l) }
+def quirkLit : Lit → Lit
+  | .pos a => .pos { a with args := renameWild a.rel 0 a.args }
+  | l => l
+
+def quirkWild (r : Rule) : Rule := { r with body := r.body.map quirkLit }
 
 /-- schema names of a scan (`build_scan`): variables keep their name, a constant in body
     position `bi`, column `i` is `_const_a<bi>_c<i>` (unique). -/
@@ -153,11 +156,14 @@ def evalPosF (lk : String → List Tuple) : List (Atom × (Tuple → Bool)) → 
   | (a, f) :: as, envs =>
     evalPosF lk as (envs.flatMap (fun env => ((lk a.rel).filter f).filterMap (fun t => matchArgs a.args t env)))
 
+def noFilter : Tuple → Bool := fun _ => true
+
 def withFilters (atoms : List Atom) (plan : Option (Nat × List (String × Nat))) (fs : List Cmp) : List (Atom × (Tuple → Bool)) :=
-  (List.range atoms.length).zip atoms |>.map (fun ia =>
-    match plan with
-    | some (k, m) => if ia.1 == k then (ia.2, fun t => fs.all (Cmp.holds (rawEnv m t))) else (ia.2, fun _ => true)
-    | none => (ia.2, fun _ => true))
+  match plan with
+  | some (k, m) =>
+    (List.range atoms.length).zip atoms |>.map (fun ia =>
+      if ia.1 == k then (ia.2, fun t => fs.all (Cmp.holds (rawEnv m t))) else (ia.2, noFilter))
+  | none => atoms.map (fun a => (a, noFilter))
 
 /-- the bag of body valuations as the engine computes it. `optimized`: the tree went through
     `Optimizer::optimize` (non-recursive heads). -/
@@ -260,7 +266,7 @@ def lfpSelf (fuel : Nat) (lk : String → List Tuple) (h : String) (cs : List Ru
 inductive Outcome where
   | ok (answer : List Tuple) (acc : DB)
   | err (e : String)
-  deriving Repr, Inhabited
+  deriving Repr, Inhabited, DecidableEq
 
 /-- hash partition `w` of `n` of every input relation (code_generator:1344). -/
 def partLk (hash : Tuple → Nat) (n w : Nat) (lk : String → List Tuple) : String → List Tuple :=
@@ -299,14 +305,28 @@ def execLoop (cfg : Cfg) (hash : Tuple → Nat) (ord : String → List Tuple →
 
 def run (cfg : Cfg) (hash : Tuple → Nat) (ord : String → List Tuple → List Tuple) (fuel : Nat) (p : Program) (edb : DB) : Outcome :=
   if p.isEmpty then .err "err:empty"
-  else if !p.all Rule.isSafe then .err "err:unsafe"
+  else if !p.all Rule.isSafe then .err "err:range"
   else if !p.all buildable then .err "err:build"
   else
     let hs := heads p
     execLoop cfg hash ord fuel p edb ((topoOrder p).map (fun i => hs.getD i "")) [] []
 
+/-- the relation the caller asks for: the head of the last rule of the text
+    ("Returns results from the LAST rule", lib.rs:1506). -/
+def queryRel (p : Program) : String := (p.getLast?.map (·.hrel)).getD ""
+
+/-- the relation the engine answers with: the last head in first-appearance order. -/
+def answeredRel (p : Program) : String := ((heads p).getLast?).getD ""
+
 def Outcome.toWire : Outcome → String
   | .ok a _ => relToWire a
+  | .err e => e
+
+/-- answer plus every accumulated relation (`execute_tuples_with_derived`), sorted by name. -/
+def Outcome.toWireAll : Outcome → String
+  | .ok a acc =>
+    let names := sortBy (fun (x y : String) => !(y < x)) (dedupS (acc.map (·.1)))
+    names.foldl (fun s n => s ++ "#" ++ n ++ "=" ++ relToWire (DB.get acc n)) (relToWire a)
   | .err e => e
 
 end ILV.Engine
